@@ -206,6 +206,13 @@ func (s *Server) Shutdown() error {
 func (s *Server) handleConnection(conn net.Conn) {
 	defer s.wg.Done()
 	defer func() { _ = conn.Close() }()
+	// A panic while handling this connection must not take the whole
+	// SASL service down: log it and drop only this connection.
+	defer func() {
+		if r := recover(); r != nil {
+			log.Printf("panic while serving %s, closing connection: %v", conn.RemoteAddr(), r)
+		}
+	}()
 
 	scanner := bufio.NewScanner(conn)
 
